@@ -324,7 +324,7 @@ impl<R: Rng> GraphState<R> {
             let (v, totalw) =
                 self.edges
                     .iter()
-                    .map(|(_, w)| *w)
+                    .map(|(_, w)| w.abs())
                     .fold((v, 0.), |(mut accv, accw), w| {
                         accv.push(accw + w);
                         (accv, accw + w)
